@@ -280,7 +280,8 @@ def rule_u8(repo):
                 ok = True
         res.add('syntax/infertype.py :: type_infer :: fixpoint(%s)' % src(a, 40), ok,
                 'repeated until no entry changes' if ok else
-                'line %d expands each entry once: an entry that mentions a variable whose own entry is expanded later keeps it, and the parsed '
+                'line %d is not repeated until no entry changes (no enclosing loop whose flag is raised exactly where an entry is expanded and lowered only '
+                'at the start of a round): an entry that mentions a variable whose own entry is expanded later keeps it, and the parsed '
                 'term contains an internal type variable (!u. u = [[x]] --> u = u came back with = at ?\'_t4 list list)' % a.lineno,
                 'syntax/infertype.py:%d' % a.lineno)
     return res
